@@ -215,3 +215,30 @@ Theorem C08_condense_scalar_equal :
     end.
 Proof. exact condense_scalar_features. Qed.
 Print Assumptions C08_condense_scalar_equal.
+
+(* ---- known findings ---------------------------------------------------- *)
+(* tdms2rtdc: fl?_max are stored as uint32, negative peak maxima of the .tdms
+   source become 0 (finding C08-tdms-negative-flmax). *)
+Theorem C08_tdms_uint32_store_refuted : exists v, h5_to_uint32 v <> v.
+Proof. exact uint32_store_refuted. Qed.
+Print Assumptions C08_tdms_uint32_store_refuted.
+
+Theorem C08_tdms_uint32_store_partial :
+  forall v, 0 <= v <= 4294967295 -> h5_to_uint32 v = v.
+Proof. exact uint32_store_partial. Qed.
+Print Assumptions C08_tdms_uint32_store_partial.
+
+(* condense of a file without events fails in RTDCWriter.store_feature
+   (finding C08-condense-empty); it cannot fail that way when every feature
+   to store has events. *)
+Theorem C08_condense_total_refuted :
+  exists dsval feats ev, condense_crashes dsval feats ev = true.
+Proof. exact condense_total_refuted. Qed.
+Print Assumptions C08_condense_total_refuted.
+
+Theorem C08_condense_total_partial :
+  forall (dsval : Z -> list elem) (feats : list Z) (ev : list (Z * node)),
+    (forall x, In x feats -> dsval x <> []) ->
+    condense_crashes dsval feats ev = false.
+Proof. exact condense_total_partial. Qed.
+Print Assumptions C08_condense_total_partial.
